@@ -37,6 +37,7 @@ func runC08(p *core.Prog, r *core.Report) {
 	r.Floor("R08.3", 9)
 	r.Floor("R08.5", 6+25+28)
 	r.Floor("R08.6", 32)
+	c08RoutingAgreement(c)
 }
 
 func isResharing(pr *Protocol) bool { return strings.HasSuffix(pr.Rel, "resharing") }
@@ -713,7 +714,39 @@ func c08Waiting(c *ctx, pr *Protocol) {
 				}
 			}
 		}
-		c.r.Check(ok, rule, key, c.fpos(st), "Start re-initialises every ok flag before sending", "Start does not re-initialise all ok flags before its first send: flags of the previous round leak into this round's WaitingFor/CanProceed")
+		// … and every successful return: a role that leaves Start early (`if !IsNewCommittee() { return nil }`)
+		// before the reset keeps the previous round's flags, all true, and sails through this round
+		why := ""
+		if ok {
+			var full ssa.CallInstruction
+			for _, rc := range resets {
+				if strings.HasSuffix(core.CalleeName(rc), ".resetOK") {
+					full = rc
+				}
+			}
+			for _, ret := range core.Returns(st) {
+				if len(ret.Results) != 1 || !core.IsNilConst(core.Strip(ret.Results[0])) {
+					continue
+				}
+				dominated := false
+				if full != nil {
+					dominated = core.InstrDominates(full, ret)
+				} else {
+					// no full reset in this round (the final one): every partial re-initialisation comes first
+					dominated = true
+					for _, rc := range resets {
+						if !core.InstrDominates(rc, ret) {
+							dominated = false
+						}
+					}
+				}
+				if !dominated {
+					ok = false
+					why = " (the successful return at " + c.pos(ret) + " is reachable without the reset)"
+				}
+			}
+		}
+		c.r.Check(ok, rule, key, c.fpos(st), "Start re-initialises every ok flag before sending and before returning successfully", "Start does not re-initialise all ok flags before its first send / successful return"+why+": flags of the previous round leak into this round's WaitingFor/CanProceed")
 	}
 	// resetOK sets every element false
 	if ro := pr.BaseFns["resetOK"]; ro != nil {
